@@ -131,6 +131,14 @@ pub(crate) unsafe fn convert_bases(bytes: &[u8]) -> (__m256i, bool) {
     (res, valid)
 }
 
+
+// Verification hook (guarded, see src/lib.rs): contracts that need this module's private items.
+#[cfg(any(kani, debruijn_verif))]
+#[allow(dead_code, unused_imports, unused_macros, unused_variables, non_snake_case)]
+pub mod verif {
+    include!(concat!(env!("DEBRUIJN_VERIF_DIR"), "/kani/m_bitops_avx2.rs"));
+}
+
 #[cfg(test)]
 mod test {
     use super::*;
